@@ -209,6 +209,8 @@ def check_queries(ci, acc=None):
                 if sum(1 for v in res if v is level) != 1:
                     problems.append("%s does not contain the variant itself exactly once: %s" % (q, uids))
                 res = [v for v in res if v is not level]
+                if types == ["self"] and res:
+                    problems.append("%s returns %s although only 'self' was requested" % (q, [v.uid for v in res]))
                 types = [t for t in types if t != "self"]
             for v in res:
                 if not any(v is u for u in universe):
